@@ -1159,9 +1159,12 @@ class StructureSimilarity(object):
                 z = float(line[46:54])
 
                 if (chainID, resSeq, name) in index:
-                    xyz.append([x, y, z])
+                    xyz.append(((chainID, resSeq, name), [x, y, z]))
 
-        return xyz
+        # order by atom identity, not by position in the file, so that the
+        # coordinates of two structures are paired atom by atom
+        xyz.sort(key=lambda atom: atom[0])
+        return [coord for _, coord in xyz]
 
     ##########################################################################
     #
